@@ -475,13 +475,30 @@ class Machine:
         self.gen = None
         self.local_sigs = {}
         self.alias = {}
+        # registered on_reset actions run while reset is active
+        for st_ in (self.ctx.get("reset") or {}).get("on_reset") or []:
+            v = self.ev(st_["e"], {})
+            name = st_["t"]["name"]
+            if st_["k"] in ("var", "value"):
+                self.var[name] = self._overlay(self.var[name], st_["t"], v)
+            else:
+                self.sig[name] = self._overlay(self.sig[name], st_["t"], v)
+        self.labels.add("reset")
 
     def step(self, inputs, reset=False):
         """one clock.  returns dict of signal values after the clock."""
         if reset:
             self.inputs = inputs
+            self.alias, self.local_sigs = {}, {}
+            self._env = {}
             self.reset_now()
             return dict(self.sig)
+        if self.ctx.get("step_cond") is not None:
+            self.inputs = inputs
+            self.alias, self.local_sigs = getattr(self, "alias", {}), getattr(self, "local_sigs", {})
+            if not self.cond(self.ctx["step_cond"], {}):
+                self.labels.add("step_cond_false")
+                return dict(self.sig)
         self.begin_step(inputs)
         kind = self.ctx["type"]
         if kind == "coro":
